@@ -38,6 +38,13 @@ package command
 // The transaction counter only moves in chainLog, together with the chain (see its contract): transaction ids increase by
 // one in log order.
 
+// New: the commander persists through a batcher with a single worker (one batch inserted at a time: logs reach the store
+// in the order they were chained -- see the scoped precondition of batching.NewBatcher in command.contracts) and starts
+// with the transaction counter just below 0
+//@ func command.New
+//@   ensures ret != nil && ret.lastTXID != nil && val(ret.lastTXID) == 0 - 1 && ret.lastLog == nil && ret.Batcher != nil
+//@   property C05
+
 // chainLog: the transaction the log carries (if any) gets the next transaction id in the same critical section in which
 // the log gets the next log id and is handed to the batcher: transaction ids increase by one in log order (C05)
 //@ func (*command.Commander).chainLog
@@ -281,4 +288,5 @@ package command
 //@   ensures forall k7 string :: old(in(k7, cacheKeys)) ==> in(k7, cacheKeys) && (cacheOf[k7] == old(cacheOf[k7]) || (cachedSrc[k7] == script && cacheOf[k7] == ret0)) // C08
 //@   modifies ghost lastCompiled, ghost lastCompiledSrc, ghost lastCompileOK, ghost cacheOf, ghost cachedSrc, ghost cacheKeys, ghost digestIn
 //@   nopanic
-//@   property C08
+// (C09: a posting list runs the program compiled from the script generated for it, not one cached for another list)
+//@   property C08 C09
